@@ -412,8 +412,92 @@ const BUILDER_SOURCES: [&str; 3] = [
     "BldC DEFINITIONS EXPLICIT TAGS ::= BEGIN\nTc ::= CHOICE { x [0] NULL, y [1] IA5String }\nEND\n",
 ];
 
+/// what a replay carries along
+struct Replay<'a> {
+    next: usize,
+    files: &'a [PathBuf],
+    illegal: String,
+    target: Option<PathBuf>,
+    d: PathBuf,
+    ext: &'a str,
+}
+
+/// one call of the sequence on the builder in whichever typestate it is
+fn step<X: Backend>(b: Bld<X>, c: &Value, st: &mut Replay) -> Bld<X> {
+    let (op, n) = (c["op"].as_str().unwrap(), c["n"].as_u64().unwrap() as usize);
+    let (files, d, ext) = (st.files, st.d.clone(), st.ext);
+    match op {
+            "add_asn_literal" => {
+                let t = BUILDER_SOURCES[st.next];
+                st.next += 1;
+                match b {
+                    Bld::M(x) => Bld::S(x.add_asn_literal(t)),
+                    Bld::S(x) => Bld::S(x.add_asn_literal(t)),
+                    Bld::O(x) => Bld::R(x.add_asn_literal(t)),
+                    Bld::R(x) => Bld::R(x.add_asn_literal(t)),
+                }
+            }
+            "add_asn_by_path" => {
+                let p = files[st.next].clone();
+                st.next += 1;
+                match b {
+                    Bld::M(x) => Bld::S(x.add_asn_by_path(p)),
+                    Bld::S(x) => Bld::S(x.add_asn_by_path(p)),
+                    Bld::O(x) => Bld::R(x.add_asn_by_path(p)),
+                    Bld::R(x) => Bld::R(x.add_asn_by_path(p)),
+                }
+            }
+            "add_asn_sources_by_path" => {
+                let ps: Vec<PathBuf> = files[st.next..st.next + n].to_vec();
+                st.next += n;
+                match b {
+                    Bld::M(x) => Bld::S(x.add_asn_sources_by_path(ps.into_iter())),
+                    Bld::S(x) => Bld::S(x.add_asn_sources_by_path(ps.into_iter())),
+                    Bld::O(x) => Bld::R(x.add_asn_sources_by_path(ps.into_iter())),
+                    Bld::R(x) => Bld::R(x.add_asn_sources_by_path(ps.into_iter())),
+                }
+            }
+            _ => {
+                let out = c["out"].as_str().unwrap();
+                let file = d.join(format!("given.{ext}"));
+                let mode = match out {
+                    "mode_dir" => {
+                        st.target = Some(d.join("outdir").join(format!("generated.{ext}")));
+                        OutputMode::SingleFile(d.join("outdir"))
+                    }
+                    "mode_none" => OutputMode::NoOutput,
+                    _ => {
+                        st.target = Some(file.clone());
+                        OutputMode::SingleFile(file.clone())
+                    }
+                };
+                match (b, out) {
+                    #[allow(deprecated)]
+                    (Bld::M(x), "path_file") => Bld::O(x.set_output_path(file)),
+                    #[allow(deprecated)]
+                    (Bld::S(x), "path_file") => Bld::R(x.set_output_path(file)),
+                    (Bld::M(x), _) => Bld::O(x.set_output_mode(mode)),
+                    (Bld::S(x), _) => Bld::R(x.set_output_mode(mode)),
+                    (other, _) => {
+                        st.illegal = "set_output in a typestate that has no such method".into();
+                        other
+                    }
+                }
+            }
+    }
+}
+
+fn exchange<X: Backend, Y: Backend + Default>(b: Bld<X>) -> Bld<Y> {
+    match b {
+        Bld::M(x) => Bld::M(x.with_backend(Y::default())),
+        Bld::S(x) => Bld::S(x.with_backend(Y::default())),
+        Bld::O(x) => Bld::O(x.with_backend(Y::default())),
+        Bld::R(x) => Bld::R(x.with_backend(Y::default())),
+    }
+}
+
 /// one call sequence of MC_Builder replayed through the real typestate API
-fn builder_case<B: Backend + Default>(backend: &str, ci: usize, case: &Value, dir: &Path) -> Value {
+fn builder_case<B0: Backend + Default, B: Backend + Default>(backend: &str, ci: usize, case: &Value, dir: &Path) -> Value {
     let d = dir.join(format!("b{ci}_{backend}"));
     let _ = fs::remove_dir_all(&d);
     fs::create_dir_all(d.join("outdir")).unwrap();
@@ -434,72 +518,32 @@ fn builder_case<B: Backend + Default>(backend: &str, ci: usize, case: &Value, di
         Ok(r) => (r.generated.clone(), r.warnings.len() as i64),
         Err(_) => (String::new(), -1),
     };
-    let mut b = Bld::M(Compiler::<B, _>::new());
-    let mut next = 0usize;
-    let mut illegal = String::new();
-    let mut target: Option<PathBuf> = None;
-    for c in case["calls"].as_array().unwrap() {
-        let (op, n) = (c["op"].as_str().unwrap(), c["n"].as_u64().unwrap() as usize);
-        b = match op {
-            "add_asn_literal" => {
-                let t = BUILDER_SOURCES[next];
-                next += 1;
-                match b {
-                    Bld::M(x) => Bld::S(x.add_asn_literal(t)),
-                    Bld::S(x) => Bld::S(x.add_asn_literal(t)),
-                    Bld::O(x) => Bld::R(x.add_asn_literal(t)),
-                    Bld::R(x) => Bld::R(x.add_asn_literal(t)),
-                }
+    // with_backend: the sequence starts on the other backend B0 and is exchanged for B at that call
+    let mut st = Replay { next: 0, files: &files, illegal: String::new(), target: None, d: d.clone(), ext };
+    let calls = case["calls"].as_array().unwrap();
+    let switch_at = calls.iter().position(|c| c["op"] == "with_backend");
+    let mut b: Bld<B> = match switch_at {
+        None => {
+            let mut b = Bld::M(Compiler::<B, _>::new());
+            for c in calls {
+                b = step(b, c, &mut st);
             }
-            "add_asn_by_path" => {
-                let p = files[next].clone();
-                next += 1;
-                match b {
-                    Bld::M(x) => Bld::S(x.add_asn_by_path(p)),
-                    Bld::S(x) => Bld::S(x.add_asn_by_path(p)),
-                    Bld::O(x) => Bld::R(x.add_asn_by_path(p)),
-                    Bld::R(x) => Bld::R(x.add_asn_by_path(p)),
-                }
+            b
+        }
+        Some(k) => {
+            let mut b0 = Bld::M(Compiler::<B0, _>::new());
+            for c in &calls[..k] {
+                b0 = step(b0, c, &mut st);
             }
-            "add_asn_sources_by_path" => {
-                let ps: Vec<PathBuf> = files[next..next + n].to_vec();
-                next += n;
-                match b {
-                    Bld::M(x) => Bld::S(x.add_asn_sources_by_path(ps.into_iter())),
-                    Bld::S(x) => Bld::S(x.add_asn_sources_by_path(ps.into_iter())),
-                    Bld::O(x) => Bld::R(x.add_asn_sources_by_path(ps.into_iter())),
-                    Bld::R(x) => Bld::R(x.add_asn_sources_by_path(ps.into_iter())),
-                }
+            let mut b: Bld<B> = exchange(b0);
+            for c in &calls[k + 1..] {
+                b = step(b, c, &mut st);
             }
-            _ => {
-                let out = c["out"].as_str().unwrap();
-                let file = d.join(format!("given.{ext}"));
-                let mode = match out {
-                    "mode_dir" => {
-                        target = Some(d.join("outdir").join(format!("generated.{ext}")));
-                        OutputMode::SingleFile(d.join("outdir"))
-                    }
-                    "mode_none" => OutputMode::NoOutput,
-                    _ => {
-                        target = Some(file.clone());
-                        OutputMode::SingleFile(file.clone())
-                    }
-                };
-                match (b, out) {
-                    #[allow(deprecated)]
-                    (Bld::M(x), "path_file") => Bld::O(x.set_output_path(file)),
-                    #[allow(deprecated)]
-                    (Bld::S(x), "path_file") => Bld::R(x.set_output_path(file)),
-                    (Bld::M(x), _) => Bld::O(x.set_output_mode(mode)),
-                    (Bld::S(x), _) => Bld::R(x.set_output_mode(mode)),
-                    (other, _) => {
-                        illegal = "set_output in a typestate that has no such method".into();
-                        other
-                    }
-                }
-            }
-        };
-    }
+            b
+        }
+    };
+    let _ = &mut b;
+    let (mut illegal, target) = (st.illegal.clone(), st.target.clone());
     let state = match &b {
         Bld::M(_) => "MissingParams",
         Bld::S(_) => "SourcesSet",
@@ -550,7 +594,7 @@ pub fn builder(args: &[String]) -> i32 {
     let indexed: Vec<(usize, Value)> = cases.into_iter().enumerate().collect();
     let events = util::par_chunks(&indexed, 16, util::threads(), |_, chunk| {
         run::install_panic_hook();
-        chunk.iter().flat_map(|(ci, c)| vec![builder_case::<RasnBackend>("rasn", *ci, c, &dir), builder_case::<TypescriptBackend>("typescript", *ci, c, &dir)]).collect()
+        chunk.iter().flat_map(|(ci, c)| vec![builder_case::<TypescriptBackend, RasnBackend>("rasn", *ci, c, &dir), builder_case::<RasnBackend, TypescriptBackend>("typescript", *ci, c, &dir)]).collect()
     });
     util::write_ndjson(util::arg(args, "--trace").expect("--trace"), &events);
     eprintln!("c20builder: {} call sequences x 2 backends, {} events", indexed.len(), events.len());
